@@ -6,6 +6,8 @@ from whoosh.automata.fsa import ANY, EPSILON, NFA
 
 def levenshtein_automaton(term, k, prefix=0):
     nfa = NFA((0, 0))
+    # A term shorter than the required prefix must match in full
+    prefix = min(prefix, len(term))
     if prefix:
         for i in xrange(prefix):
             c = term[i]
